@@ -176,6 +176,7 @@ CLAUSES = {
     15: "slash packet does not carry the id associated with the infraction height",
     16: "provider mapped a slash packet id to the wrong height / rejected a known id / wrong channel-opening height",
     17: "a slash packet with an id above the provider's current id was accepted",
+    18: "a slash packet carrying an id the provider never issued (>= its current valset update id) was not answered with an error",
 }
 
 
